@@ -53,6 +53,8 @@ def floors(ctx):
     for p in range(6):
         f[f"proto{p}"] = 10
     f["protodefault"] = 5
+    f["protohighest"] = 5
+    f["cases_with_dill_options"] = 50
     f["via_dump_file"] = 10
     for l in ("pickle", "dill"):
         for w in ("same", "fresh"):
@@ -143,25 +145,29 @@ def pick_root(rng, objs, kind):
 # ---------------------------------------------------------------------------
 
 
-def dump_bytes(root, proto, via, low_recursion=False):
+DILL_KW = [{}, {}, {"recurse": True}, {"byref": True}, {"fmode": 0}, {"byref": False, "recurse": False}]
+
+
+def dump_bytes(root, proto, via, low_recursion=False, kw=None):
     old = sys.getrecursionlimit()
     if low_recursion:
         sys.setrecursionlimit(len(inspect.stack()) + 150)
     try:
+        kw = dict(kw or {})
         if via == "dumps":
-            return nrpickler.dumps(root, protocol=proto) if proto is not None else nrpickler.dumps(root)
+            return nrpickler.dumps(root, protocol=proto, **kw) if proto is not None else nrpickler.dumps(root, **kw)
         if via == "dump_file":
             # a real (buffered) file object rather than BytesIO
             fd, path = tempfile.mkstemp(prefix="egv_c10_", suffix=".pkl")
             try:
                 with os.fdopen(fd, "wb") as fp:
-                    nrpickler.dump(root, fp, protocol=proto)
+                    nrpickler.dump(root, fp, protocol=proto, **kw)
                 with open(path, "rb") as fp:
                     return fp.read()
             finally:
                 os.unlink(path)
         f = io.BytesIO()
-        nrpickler.dump(root, f, protocol=proto)
+        nrpickler.dump(root, f, protocol=proto, **kw)
         return f.getvalue()
     finally:
         sys.setrecursionlimit(old)
@@ -317,7 +323,10 @@ def run_case(ctx, rng, cfg, desc, root, objs_all, batch):
                 oracles.outcome(helpers.neighbors, v, 1, 1, zoo.f_tagged_edge)
         form0, objs0 = canon.canonical(root)
         bat0 = canon.battery(objs0)
-        res = oracles.outcome(dump_bytes, root, cfg["proto"], cfg["via"], cfg.get("low_recursion", False))
+        res = oracles.outcome(dump_bytes, root, cfg["proto"], cfg["via"], cfg.get("low_recursion", False),
+                              DILL_KW[cfg.get("dill_kw", 0)])
+        if cfg.get("dill_kw", 0) > 1:
+            ctx.count("cases_with_dill_options")
     finally:
         Vertex.NEIGHBOR_CACHING = False
     ctx.evaluated()
@@ -328,7 +337,7 @@ def run_case(ctx, rng, cfg, desc, root, objs_all, batch):
             ctx.count("slotted_class_under_protocol_0_1_refused_by_python_itself")
             return
         ctx.count("cases_with_slotted_subclass")
-    ctx.count(f"proto{cfg['proto'] if cfg['proto'] is not None else 'default'}")
+    ctx.count("proto" + ("default" if cfg["proto"] is None else "highest" if cfg["proto"] == -1 else str(cfg["proto"])))
     ctx.count("via_" + cfg["via"])
     ctx.count(f"{cfg['loader']}:{cfg['where']}:{'cache_on' if cfg['cache_load'] else 'cache_off'}")
     if any(n.get("links") or n.get("ends") for n in form0["nodes"]):
@@ -360,7 +369,8 @@ def run_case(ctx, rng, cfg, desc, root, objs_all, batch):
 
 
 def rand_cfg(rng, fresh_p=0.25):
-    return {"proto": rng.choice([0, 1, 2, 3, 4, 5, None]), "via": rng.choice(["dumps", "dump", "dump_file"]),
+    return {"proto": rng.choice([0, 1, 2, 3, 4, 5, None, -1]), "dill_kw": rng.randrange(len(DILL_KW)),
+            "via": rng.choice(["dumps", "dump", "dump_file"]),
             "loader": rng.choice(["pickle", "dill"]),
             "where": "fresh" if rng.random() < fresh_p else "same", "cache_dump": rng.random() < 0.5,
             "cache_load": rng.random() < 0.5, "warm": rng.random() < 0.4}
